@@ -552,6 +552,84 @@ fn record(
 
 /// One document of the given class.  `small` keeps it short (I/O fault
 /// sweeps and the Mini tier).
+/// The line pools of `pool_doc`: per key, a handful of fixed lines (two
+/// different values, the empty or an equal-after-trimming value, an invalid
+/// one where the key can be invalid).
+pub const POOL_KEYS: [&str; 5] = ["ALL_DEPENDS", "SCAN_DEPENDS", "MULTI_VERSION", "PKG_LOCATION", "CATEGORIES"];
+
+fn pool_lines(key: usize) -> Vec<Line> {
+    let words = |t: &str| -> Vec<String> { t.split_whitespace().map(|w| w.to_string()).collect() };
+    let texts: [&str; 4] = match key {
+        0 => ["a>=1:../../cat/a", "b-[0-9]*:../../cat/b c>=2<3:../../dog/c", "", "hello"],
+        1 => ["a.mk", "../b/c.mk /x/y", "", "a.mk  "],
+        2 => ["X=1", "Y=2 Z=3", "", "X=1\t"],
+        3 => ["cat/a", "dog/b", "../../cat/a", "cat/sub/a"],
+        _ => ["net", "www lang", "net ", "www"],
+    };
+    texts
+        .iter()
+        .enumerate()
+        .map(|(i, t)| {
+            let sem = match key {
+                0 => Sem::AllDepends { items: words(t), bad: if i == 3 { Some(0) } else { None } },
+                1 => Sem::ScanDepends(words(t)),
+                2 => Sem::MultiVersion(words(t)),
+                3 => Sem::Location { value: t.to_string(), valid: i != 3 },
+                _ => Sem::Scalar(4, t.trim().to_string()),
+            };
+            Line { sem, text: format!("{}={t}", POOL_KEYS[key]).into_bytes() }
+        })
+        .collect()
+}
+
+/// Number of different record bodies of `pool_doc`: every sequence of at
+/// most two lines over the four lines of a pool.
+pub const POOL_BODIES: usize = 1 + 4 + 16;
+
+/// A document whose records are built from one key's pool: record i has
+/// the body number `bodies[i]` (0: no line; 1..=4: one line; 5..=20: two
+/// lines).  The same few byte-identical lines recur in neighbouring records,
+/// repeated and overridden inside a record - everything a reader that
+/// remembers something about the previous line or record can confuse.
+pub fn pool_doc(key: usize, bodies: &[usize]) -> Doc {
+    let pool = pool_lines(key);
+    let mut lines: Vec<Line> = vec![];
+    let mut repeated = 0;
+    for (ri, &b) in bodies.iter().enumerate() {
+        let name = format!("pool{ri}-1.0");
+        lines.push(Line { sem: Sem::Pkgname(name.clone()), text: format!("PKGNAME={name}").into_bytes() });
+        let seq: Vec<usize> = match b {
+            0 => vec![],
+            1..=4 => vec![b - 1],
+            _ => vec![(b - 5) / 4, (b - 5) % 4],
+        };
+        if seq.len() == 2 {
+            repeated += 1;
+        }
+        for i in seq {
+            lines.push(Line { sem: pool[i].sem.clone(), text: pool[i].text.clone() });
+        }
+    }
+    let mut bytes = vec![];
+    let mut sems = vec![];
+    for l in lines {
+        bytes.extend_from_slice(&l.text);
+        bytes.push(b'\n');
+        sems.push(l.sem);
+    }
+    Doc {
+        bytes,
+        sems,
+        class: Class::Clean,
+        fault_pos: "pool".into(),
+        records: bodies.len(),
+        leak_probes: 0,
+        repeated_keys: repeated,
+        ignored_lines: 0,
+        dup_pkgname: 0,
+    }
+}
+
 pub fn doc(r: &mut Rng, class: Class, small: bool) -> Doc {
     let mut lineno = 0usize;
     let mut lines: Vec<Line> = vec![];
